@@ -2099,6 +2099,17 @@ def validate_gridcompat(rng, n_cases, res):
             reqs.append({"fn": "StructuredGrid___eq__", "args": common_args + [[bool(b) for b in ga.axes_increase]] + tail
                          + [[bool(b) for b in other.axes_increase] if structured else []]})
             expect.append(("__eq__", want_e, case))
+            if (structured and "ok" in want_c and "ok" in want_e
+                    and common.TRANSLATION_STATUS.get("StructuredGrid_get_transform_to", {}).get("translated")):
+                try:
+                    tr = ga.get_transform_to(other)
+                    want_t = {"ok": None if tr is None else 1}
+                except Exception as e:  # noqa
+                    want_t = {"err": err_class(e)}
+                reqs.append({"fn": "StructuredGrid_get_transform_to", "args": [want_c["ok"], want_e["ok"]]})
+                expect.append(("get_transform_to", want_t, case))
+                stats["transforms"] = stats.get("transforms", 0) + (1 if want_t.get("ok") == 1 else 0)
+                stats["pass_through"] = stats.get("pass_through", 0) + (1 if want_t == {"ok": None} else 0)
             stats["pairs"] += 1
             stats["compatible"] += 1 if want_c.get("ok") else 0
             stats["equal"] += 1 if want_e.get("ok") else 0
